@@ -194,7 +194,7 @@ Example from_string_ex :
   from_string [43;49;46;53] 1 = Some 15 /\                (* "+1.5" *)
   from_string [49;46;45;53] 8 = Some 95000000 /\          (* "1.-5" : SetString accepts a signed fraction *)
   from_string [45;49;46;53] 1 = Some (-15) /\             (* "-1.5" *)
-  from_string [45;48;46;53] 1 = Some (-5).                (* "-0.5" : correct behaviour (F13) *)
+  from_string [45;48;46;53] 1 = Some (-5).                (* "-0.5" : correct behaviour (F14) *)
 Proof. vm_compute. repeat split. Qed.
 
 Theorem fixed_canonical : forall s p v,
